@@ -85,6 +85,10 @@ def _container(kind, items, n_hint=2):
     raise KeyError(kind)
 
 
+NAMES = [None, "Bob", "{TAG} Bob", "{}", "{0}", "100%s", "%(x)s", "a{b", "x\\1", "{rating.mu}", ""]
+_NAME_ROT = [0]
+
+
 def _bad_player(fault, foreign_models):
     if fault == "none":
         return None
@@ -103,7 +107,11 @@ def _bad_player(fault, foreign_models):
     if fault == "object":
         return object()
     if fault.startswith("foreign:"):
-        return foreign_models[fault.split(":", 1)[1]].rating(25.0, 8.0)
+        # display names as users choose them (gamer tags): braces, percent signs and backslashes are what error messages built with
+        # str.format / % / re choke on.  The name rotates so that every kind shows up within a few faulty calls.
+        _NAME_ROT[0] += 1
+        name = NAMES[_NAME_ROT[0] % len(NAMES)]
+        return foreign_models[fault.split(":", 1)[1]].rating(25.0, 8.0, **({"name": name} if name is not None else {}))
     raise KeyError(fault)
 
 
